@@ -99,10 +99,20 @@ class Report:
     def floor(self, rid, minimum, what=""):
         """Anchor check: rule rid must have examined at least `minimum`
         instances, else the analysis is broken (exit 2)."""
-        n = self.rules.get(rid, {}).get("instances", 0)
+        r = self.rules.get(rid, {})
+        n = r.get("instances", 0)
         if n < minimum:
             self.broken.append("rule %s examined %d instance(s), expected at "
                                "least %d %s" % (rid, n, minimum, what))
+
+    def floor_discharged(self, rid, minimum):
+        """at least `minimum` obligations of rid must be decided (held or
+        violated); too many lost proofs make the check vacuous -> exit 2"""
+        r = self.rules.get(rid, {})
+        n = r.get("instances", 0) - r.get("unproved", 0)
+        if n < minimum:
+            self.broken.append("rule %s decided only %d obligation(s) (%d unproved), expected at least %d" % (
+                rid, n, r.get("unproved", 0), minimum))
 
     def broken_if(self, cond, why):
         if cond:
